@@ -138,7 +138,10 @@ def run(run):
                 for i in range(nfiles):
                     g = G.Gen(random.Random(rng.random()), G.Opts(unique=True, classes=1, methods=2, stmts=3, depth=1))
                     text, ents = g.file("P%d_" % i)
-                    rel = os.path.join(*(["d%d" % rng.randint(0, 2) for _ in range(rng.randint(0, 3))] + ["F%d.java" % i]))
+                    # directories of any name: ordinary ones, hidden ones (.mvn/wrapper, .generated), names with blanks and dots
+                    rel = os.path.join(*([rng.choice(["d0", "d1", "d2", ".mvn", ".generated", "wrapper", "a b", "v1.2", "..x"]) for _ in range(rng.randint(0, 3))] + ["F%d.java" % i]))
+                    if i == 0:
+                        rel = os.path.join(".mvn", "wrapper", "F0.java")
                     files[rel] = text
                     if rng.random() < 0.4:
                         files[rel.replace(".java", "_copy.java")] = text      # identical code in another file
